@@ -238,14 +238,32 @@ def r5_batching(ctx, prog):
     for oc in o.outcomes:
         if not may_succeed(oc):
             continue
-        rt, er = ev_calls(oc, 'retrieveHandles'), ev_calls(oc, 'eraseHandles')
+        # whatever the form (one retrieve of up to ulMaxObjectCount handles, or a loop that takes them one at a time and skips the dead ones): every retrieveHandles(dst, n) is
+        # followed, before the next one, by exactly one eraseHandles(0, m) with m = n or the number retrieve returned; only the last retrieve of a path may go without (it returned 0)
+        seq = [e for e in oc['events'] if e[0] == 'call' and e[1] in ('retrieveHandles', 'eraseHandles')]
         wr = [e for e in oc['events'] if e[0] == 'write' and e[1] == '*' + param_name(h, 3)]
-        if len(rt) != 1 or len(er) != 1 or not wr:
-            bad = ('does not pair one retrieveHandles with one eraseHandles and a reported count', oc)
-        elif rt[0][2][1:] != (param_name(h, 1), param_name(h, 2)):
-            bad = ('retrieves into %s instead of the caller\'s (%s, %s)' % (rt[0][2][1:], param_name(h, 1), param_name(h, 2)), oc)
-        elif er[0][2][1] != '0' or not (er[0][2][2] == '*' + param_name(h, 3) or er[0][2][2].startswith('retrieveHandles@')):
-            bad = ('discards (%s, %s) handles, not exactly the ones just returned' % (er[0][2][1], er[0][2][2]), oc)
+        rt = [e for e in seq if e[1] == 'retrieveHandles']
+        if not wr:
+            bad = ('reports no count', oc)
+            continue
+        i = 0
+        while i < len(seq):
+            e = seq[i]
+            if e[1] != 'retrieveHandles':
+                bad = ('discards handles (line %s) that no retrieveHandles returned before' % e[3], oc)
+                break
+            nxt = seq[i + 1] if i + 1 < len(seq) else None
+            if nxt is None or nxt[1] == 'retrieveHandles':
+                if nxt is not None:
+                    bad = ('retrieves handles (line %s) that are not discarded before the next retrieve: they are returned again' % e[3], oc)
+                    break
+                i += 1
+                continue
+            n = e[2][2] if len(e[2]) > 2 else None
+            if nxt[2][1] != '0' or not (nxt[2][2] == n or nxt[2][2] == '*' + param_name(h, 3) or nxt[2][2].startswith('retrieveHandles@')):
+                bad = ('discards (%s, %s) handles, not exactly the ones just returned (%s)' % (nxt[2][1], nxt[2][2], n), oc)
+                break
+            i += 2
     site = 'C_FindObjects returns and discards the same handles'
     (r.violation(h['qname'], site, 'a successful path ' + bad[0], file=h['file'], line=bad[1]['line'], path=bad[1]['path']) if bad else r.ok(h['qname'], site, '%d paths' % len(o.outcomes), file=h['file'], line=h['line']))
 
@@ -263,6 +281,37 @@ def r5_batching(ctx, prog):
         r.ok(f['qname'], site, 'no mutating operation on _handles', file=f['file'], line=f['line'])
 
 
+def r9_live_results(ctx, prog):
+    """C_FindObjectsInit freezes the matching handles; objects can die before C_FindObjects hands them out (destroyed by another session, their session closed, the user logged
+    out).  "Destroyed objects ... are never returned": every handle that C_FindObjects stores into the caller's array was looked up again in the handle table and found valid."""
+    r = ctx.rule('C19.R9', 'C_FindObjects hands out only handles that still denote a valid object (re-validated at hand-out time)', floor=1, engine='E2 dominance')
+    f = prog.fn('SoftHSM::C_FindObjects')
+    ctx.analysed(f)
+    ph = param_name(f, 1)
+
+    def atrig(lhs, rhs, st):
+        if lhs.get('k') == 'Index' and lhs['base'].get('k') == 'Var' and lhs['base']['name'] == ph:
+            return ('store', lhs['l'])
+        return None
+    sf = SiteFacts(f, prog, assign_trigger=atrig, track_facts=r'^\w+$|^EQ\(\w+,NULL(_PTR)?\)$|isValid').go()
+    r.paths += sf.paths_returned
+    direct = [c for c in calls(f['body'], short='retrieveHandles') if c.get('args') and c['args'][0].get('k') == 'Var' and c['args'][0]['name'] == ph]
+    if direct:
+        r.violation(f['qname'], 'handles handed out', 'the frozen result set is copied straight into the caller\'s array (line %s): a handle whose object was destroyed, whose session was closed or that became invisible through C_Logout since C_FindObjectsInit is still returned' % direct[0]['l'],
+                    file=f['file'], line=direct[0]['l'])
+        return
+    if not sf.sites:
+        r.undecided(f['qname'], 'handles handed out', 'no store into %s found' % ph, file=f['file'], line=f['line'])
+    for (_, line), hits in sorted(sf.sites.items()):
+        objs = {v for v, c in local_from_call(f, 'getObject')}
+        bad = [h for h in hits if not any(((v, True) in h['facts'] or ('EQ(%s,NULL)' % v, False) in h['facts'] or ('EQ(%s,NULL_PTR)' % v, False) in h['facts']) and ('isValid(%s)' % v, True) in h['facts'] for v in objs)]
+        site = 'store into %s@%d' % (ph, line)
+        if bad:
+            r.violation(f['qname'], site, 'a handle is handed out on a path where it was not looked up again and found valid: an object destroyed (or hidden by C_Logout) since C_FindObjectsInit is returned', file=f['file'], line=line, path=bad[0]['path'])
+        else:
+            r.ok(f['qname'], site, 'after getObject() != NULL and isValid()', file=f['file'], line=line)
+
+
 def run(ctx):
     prog = ctx.prog('ossl-file')
     r1_filter(ctx, prog)
@@ -277,6 +326,7 @@ def run(ctx):
     c03.r3_lastclose(ctx, prog, rule_id='C19.R7')
     c03.r7_table_scans(ctx, prog, rule_id='C19.R7b')
     c15.r1_chain(ctx, prog, rule_id='C19.R8')
+    r9_live_results(ctx, prog)
 
 
 MUTANTS = [
